@@ -24,6 +24,8 @@ func init() {
 			c18Specs = append(c18Specs, c18Spec{pairs[i], kind, pairs[i+1], positional})
 		}
 	}
+	// a row far longer than the others (1.5 MiB: beyond any line buffer), in a later record
+	add("unequal-length-huge", true, "variants", "msa", "snps", "query", "closest", "target", "closestn", "query", "list", "query", "toprank", "target")
 	for _, k := range []string{"unequal-length-shorter", "unequal-length-longer", "unequal-length-empty"} {
 		add(k, true, "variants", "msa", "variants-stdin", "msa", "snps", "query", "closest", "query", "closest", "target", "closestn", "query", "closestn", "target", "list", "query", "toprank", "query", "toprank", "target")
 	}
@@ -205,13 +207,22 @@ func runC18(c *fw.Ctx, idx int) fw.Result {
 		if sp.file == "msa" && pos == 0 && strings.HasPrefix(sp.kind, "unequal-length") {
 			i = 1 // the first *query* row (row 0 is the reference and defines the width)
 		}
+		if sp.kind == "unequal-length-huge" && i == 0 && len(recs) > 1 {
+			i = 1 // a later record: the records before it have been read and may have been written
+		}
 		if sp.kind == "unequal-length-empty" && i == len(recs)-1 && i > 0 {
 			i-- // a header-only *last* record is an unspecified zone (DESIGN C16); first and middle are not
 		}
 		f(&recs[i])
-		files[sp.file] = gen.RenderFasta(recs, []int{0, 60}[idx%2])
+		wrapW := []int{0, 60}[idx%2]
+		if sp.kind == "unequal-length-huge" {
+			wrapW = 0
+		}
+		files[sp.file] = gen.RenderFasta(recs, wrapW)
 	}
 	switch sp.kind {
+	case "unequal-length-huge":
+		mutRec(func(rc *gen.FastaRec) { rc.Seq = strings.Repeat("A", 3<<19) })
 	case "unequal-length-shorter", "unequal-length-longer", "unequal-length-empty":
 		mutRec(func(rc *gen.FastaRec) {
 			if sp.kind == "unequal-length-empty" && len(recsOf[sp.file]) > 1 {
